@@ -74,6 +74,18 @@ fn feed_der(bytes: &[u8], f: &mut Vec<Finding>, w: &Watch) -> u64 {
     for a in backend_algs() {
         call!("KeyPair::from_pkcs8_der_and_sign_algo", rcgen::KeyPair::from_pkcs8_der_and_sign_algo(&PrivatePkcs8KeyDer::from(bytes.to_vec()), rc_alg(a).unwrap()));
     }
+    // the caller, not the bytes, chooses the PrivateKeyDer variant (safe constructors): every variant around the same bytes
+    let wrapped = [
+        ("Pkcs8", PrivateKeyDer::Pkcs8(PrivatePkcs8KeyDer::from(bytes.to_vec()))),
+        ("Sec1", PrivateKeyDer::Sec1(pki_types::PrivateSec1KeyDer::from(bytes.to_vec()))),
+        ("Pkcs1", PrivateKeyDer::Pkcs1(pki_types::PrivatePkcs1KeyDer::from(bytes.to_vec()))),
+    ];
+    for (_n, k) in &wrapped {
+        call!("KeyPair::try_from(&PrivateKeyDer::<variant>)", rcgen::KeyPair::try_from(k));
+        for a in backend_algs() {
+            call!("KeyPair::from_der_and_sign_algo(&PrivateKeyDer::<variant>)", rcgen::KeyPair::from_der_and_sign_algo(k, rc_alg(a).unwrap()));
+        }
+    }
     calls
 }
 
@@ -201,6 +213,24 @@ fn part_parse_short(rep: &mut Report, thorough: bool) {
         sec.violation_count.fetch_add(1, Ordering::Relaxed);
     }
     rep.add(sec);
+    // every parse seed as it is (certificates, requests, keys of every kind, size and form, SPKIs) through every entry point
+    // and under every claimed PrivateKeyDer variant, also as PEM under every label
+    {
+        let zoo = load_zoo();
+        let seeds = parse_seeds(&zoo, true);
+        let sec = Section::new("parse/unmutated-seeds", &format!("all {} parse seeds unmutated (every fixture key in every form, certificates, requests, public keys) through every DER entry point, every claimed PrivateKeyDer variant, and PEM-wrapped under 8 labels through every PEM entry point", seeds.len()));
+        run::sweep_cases(&sec, &seeds, &|s| s.0.clone(), &|s| {
+            let mut out = Outcome::default();
+            out.transitions = feed_der(&s.1, &mut out.findings, &w);
+            for label in ["PRIVATE KEY", "EC PRIVATE KEY", "RSA PRIVATE KEY", "CERTIFICATE", "CERTIFICATE REQUEST", "PUBLIC KEY", "X509 CRL", "ENCRYPTED PRIVATE KEY"] {
+                out.transitions += feed_text(&refmodel::pem::encode(label, &s.1), &mut out.findings, &w);
+            }
+            out.findings.dedup_by(|a, b| a.sig() == b.sig());
+            out.digest = fnv(&s.1);
+            out
+        });
+        rep.add(sec);
+    }
     // text alphabet for from_str / new
     let alpha: Vec<char> = "0123456789.:/afx\u{e9}\u{0}- ".chars().collect();
     let mut texts: Vec<String> = vec![String::new()];
@@ -376,11 +406,19 @@ pub fn hostile_times() -> Vec<(String, TimeSpec)> {
 
 pub fn hostile_space() -> Space<GenCase> {
     let mut dims: Vec<Dim<GenCase>> = Vec::new();
-    let non_ascii = ["\u{e9}.example", "a\u{0}b", "\u{7f}\u{80}", "\u{1f980}"];
+    // short texts, and long ones in which a multi-byte character straddles a power-of-two (or 255/65535) byte offset
+    let mut non_ascii_owned: Vec<String> = vec!["\u{e9}.example".into(), "a\u{0}b".into(), "\u{7f}\u{80}".into(), "\u{1f980}".into()];
+    for n in [16usize, 64, 128, 255, 256, 257, 512, 1024, 4096, 65535, 65536] {
+        non_ascii_owned.push(format!("{}\u{e9}z", "a".repeat(n - 1)));
+        non_ascii_owned.push(format!("{}\u{1f980}z", "a".repeat(n - 2)));
+    }
+    non_ascii_owned.push("\u{e9}".repeat(300));
+    let non_ascii: Vec<&str> = non_ascii_owned.iter().map(|s| s.as_str()).collect();
+    let short = |t: &str| if t.len() > 24 { format!("{} bytes ending {:?}", t.len(), &t[t.len().saturating_sub(6)..]) } else { format!("{:?}", t) };
     let mut d = Dim::new("nc dns/rfc822 text");
-    for t in non_ascii {
+    for t in non_ascii.iter().copied() {
         let s = t.to_string();
-        d = d.v(format!("permitted dns {:?}", t), {
+        d = d.v(format!("permitted dns {}", short(t)), {
             let s = s.clone();
             move |c: &mut GenCase| {
                 c.st.is_ca = IsCaSpec::Unconstrained;
@@ -388,7 +426,7 @@ pub fn hostile_space() -> Space<GenCase> {
                 c.hostile.push("ia5");
             }
         });
-        d = d.v(format!("excluded rfc822 {:?}", t), move |c: &mut GenCase| {
+        d = d.v(format!("excluded rfc822 {}", short(t)), move |c: &mut GenCase| {
             c.st.is_ca = IsCaSpec::Unconstrained;
             c.st.nc = Some(NcSpec { permitted: vec![], excluded: vec![SubtreeSpec::Email(s.clone())] });
             c.hostile.push("ia5");
@@ -412,16 +450,16 @@ pub fn hostile_space() -> Space<GenCase> {
     }
     dims.push(d);
     let mut d = Dim::new("uri text");
-    for t in non_ascii {
+    for t in non_ascii.iter().copied() {
         let s = t.to_string();
-        d = d.v(format!("crl dp uri {:?}", t), {
+        d = d.v(format!("crl dp uri {}", short(t)), {
             let s = s.clone();
             move |c: &mut GenCase| {
                 c.st.crl_dps = vec![vec![s.clone()]];
                 c.hostile.push("ia5");
             }
         });
-        d = d.v(format!("idp uri {:?}", t), move |c: &mut GenCase| {
+        d = d.v(format!("idp uri {}", short(t)), move |c: &mut GenCase| {
             c.crl.idp = Some(IdpSpec { uris: vec![s.clone()], scope: None });
             c.hostile.push("ia5");
         });
@@ -697,6 +735,10 @@ pub fn run(prop: &str, tier: &str, replay: Option<&str>) -> i32 {
     rep.assume("inputs of the three documented panics are not generated");
     let part = std::env::var("VERIF_C10_PART").ok();
     let parts = ["short", "edits0", "edits1", "generation"];
+    // self-test of the supervisor (lab use): VERIF_C10_SELFTEST_ABORT=<part> makes that part die like a crashing subject would
+    if part.is_some() && std::env::var("VERIF_C10_SELFTEST_ABORT").ok() == part {
+        std::process::abort();
+    }
     match part.as_deref() {
         Some("short") => part_parse_short(&mut rep, thorough),
         Some("edits0") => part_parse_edits(&mut rep, thorough, 0),
@@ -715,7 +757,14 @@ pub fn run(prop: &str, tier: &str, replay: Option<&str>) -> i32 {
                 part_generation(&mut rep, thorough);
                 return run::finish(rep);
             }
-            let children: Vec<run::ChildRun> = parts.iter().map(|p| run::spawn_child_env(&format!("part-{}", p), "self", prop, tier, vec![("VERIF_C10_PART".to_string(), p.to_string())], 6)).collect();
+            let aws_parts: Vec<&str> = if thorough { vec!["short", "edits0", "edits1", "generation"] } else { vec!["short", "generation"] };
+            let mut children: Vec<run::ChildRun> = parts.iter().map(|p| run::spawn_child_env(&format!("part-{}", p), "self", prop, tier, vec![("VERIF_C10_PART".to_string(), p.to_string())], 6)).collect();
+            // the key loaders and the generation paths differ between the back ends: the same parts under aws-lc-rs
+            if cfg!(feature = "ring") {
+                for p in aws_parts.iter() {
+                    children.push(run::spawn_child_env(&format!("aws-part-{}", p), "aws", prop, tier, vec![("VERIF_C10_PART".to_string(), p.to_string())], 4));
+                }
+            }
             run::join_children(&mut rep, children);
             // a dead part is a violation of C10 itself
             let mut dead = Vec::new();
@@ -728,8 +777,12 @@ pub fn run(prop: &str, tier: &str, replay: Option<&str>) -> i32 {
                 }
             });
             let sec = Section::new("supervisor", "one record per part process: exit status");
-            for p in parts {
-                let d = dead.iter().find(|(n, _)| n == &format!("part-{}", p));
+            let mut all_parts: Vec<String> = parts.iter().map(|p| format!("part-{}", p)).collect();
+            if cfg!(feature = "ring") {
+                all_parts.extend(aws_parts.iter().map(|p| format!("aws-part-{}", p)));
+            }
+            for p in all_parts.iter().map(|s| s.as_str()) {
+                let d = dead.iter().find(|(n, _)| n == p);
                 let mut out = Outcome::default();
                 out.digest = fnv(p.as_bytes());
                 if let Some((_, code)) = d {
